@@ -31,6 +31,7 @@ var (
 
 const (
 	defaultRetain = 2592000 // 30-days
+	maxPrealloc   = 1024    // Maximum number of messages to pre-allocate for a query
 )
 
 // Storage represents a message storage contract that message storage provides
